@@ -784,6 +784,23 @@ func genC11(tier string, seed uint64) []*c11Case {
 		}
 		cases = append(cases, &c11Case{op: "info", infoVal: v, infoSrv: srv})
 	}
+	// (4b) hbase:meta rows whose *key* is not a region name (the value is a good region info), and
+	// Increment answers whose value is not an 8-byte counter
+	goodInfo, _ := proto.Marshal(&pb.RegionInfo{RegionId: proto.Uint64(7),
+		TableName: &pb.TableName{Namespace: []byte("default"), Qualifier: []byte("t")},
+		StartKey:  []byte("a"), EndKey: []byte("m")})
+	goodInfo = append([]byte("PBUF"), goodInfo...)
+	rows := [][]byte{nil, []byte("t"), []byte(","), []byte("t,"), []byte(",,"), []byte("t,a"), []byte("t,a,"), []byte("t,,7"),
+		[]byte("t,a,7.abcdef."), []byte("nocomma-at-all"), []byte("\x00"), []byte("t\x00,"), []byte("zz,a")}
+	for k := 0; k < 40; k++ {
+		rows = append(rows, rng.Bytes(12, []byte{',', 't', 'a', 0, 0xff, '.', '7'}))
+	}
+	for _, row := range rows {
+		cases = append(cases, &c11Case{op: "metarow", infoVal: goodInfo, metaRow: row})
+	}
+	for n := 0; n <= 12; n++ {
+		cases = append(cases, &c11Case{op: "incr", infoVal: make([]byte, n)})
+	}
 	// (5) coalescing of partial results
 	for i, sc := range c11CoScripts(tier, rng) {
 		cases = append(cases, &c11Case{op: "coalesce", script: sc, allowPartial: i%7 == 6})
